@@ -16,6 +16,8 @@ PIPE_NOTE = ('Trusted: the simulator (SimLoop keeps asyncio FIFO order; time mov
              "ndn's own network-layer decoders. Sampled, not exhaustive; abstains within 1.5 ms of a deadline tie.")
 
 ENGINES_META = [
+    {'name': 'clientconf', 'path': 'engines/clientconf.py', 'serves_properties': ['C20'],
+     'kind_free_text': 'read_client_conf/default_face/default_keychain/NDNApp() over a fake Linux environment and simulated network'},
     {'name': 'svs', 'path': 'engines/svs.py', 'serves_properties': ['C18'],
      'kind_free_text': 'one real SvsInst on a v2 NDNApp, scripted peers, simulated wall clock and scripted timer randomness'},
     {'name': 'segfetch', 'path': 'engines/segfetch.py', 'serves_properties': ['C19'],
@@ -119,6 +121,24 @@ CHECKS['C18'] = dict(
     stub=STUB_COMMON + ['sync.time (simulated wall clock, 1 us granularity)', 'sync.secrets (scripted 16-bit sequence)', 'the sync group peers (scripted vectors)'],
     rule='seed -> start + 2-10 events (vectors / publications / stop,start) aimed into the suppression window; non-trivial: '
          '>=2 vectors and >=1 completed suppression period; distinct = order signature of rx/publish/tx')
+
+
+CHECKS['C20'] = dict(
+    engine='clientconf', design_ref='5 (C20)', level='exploration',
+    technique='simulated environment (fake file system, environment variables, sockets) + simulated network endpoints + reference resolver',
+    text='The precedence product {env set/unset}^3 x {which candidate file exists} x {key present}^3 x {store location '
+         'absent/existing/relative/missing}^2 (5120 combinations) is walked by consecutive seeds with seeded transports, '
+         'file styles and store schemes; read_client_conf, default_keychain and the connection NDNApp() really attempts on '
+         'the simulated network are compared with a 30-line reference resolver.',
+    note='Trusted: the fake os/open seam, the reference resolver, SimLoop. There is no schedule in this property: the simulator '
+         'contributes the environment/transport seams and the end-to-end observation of the endpoint. Abstains when neither '
+         'the given nor the platform default store location exists, and for URIs without host/path.',
+    real=['ndn.client_conf (read_client_conf, default_face, default_keychain)', 'ndn.platform.linux', 'ndn.platform.general',
+          'ndn.appv2.NDNApp / ndn.app.NDNApp constructors and main_loop', 'UnixFace/TcpFace/UdpFace.open', 'configparser, urllib.parse'],
+    stub=['os.environ / os.path.exists / expanduser / open (fake file system)', 'TpmFile and KeychainSqlite3 constructors (recording stand-ins)',
+          'asyncio.open_connection / open_unix_connection / create_datagram_endpoint (simulated network)', 'event loop (SimLoop)'],
+    rule='seed i -> combination i mod 5120 of the precedence product + seeded values; non-trivial: values come from >=2 '
+         'different sources or a configuration file exists; distinct = order signature (hash of the scenario shape)')
 
 
 def run_check(prop, tier):
